@@ -76,6 +76,20 @@ def fault_job(job):
         for i in words[:25]:
             t2 = ''.join(toks[:i + 1] + [' ', toks[i]] + toks[i + 1:])
             out.append(('word-twice', t2, props, PC.impl_parse(t2, props)))
+        # words made of characters DBML has no use for (an identifier is letters, digits, underscores - or quoted): a stray
+        # one anywhere between tokens, or a line of them where a column / enum item / index / group member would stand
+        bounds = [i for i in range(len(toks) + 1) if not (i > 0 and toks[i - 1].startswith('//'))]
+        rng.shuffle(bounds)
+        for i in bounds[:25]:
+            w = rng.choice(['@@', '%%', '$x', 'a@b', '!', 'x=1', '*', '~t', '@@ %%', '&& ||'])
+            t2 = ''.join(toks[:i] + [' ', w, ' '] + toks[i:])
+            out.append(('symbol-word', t2, props, PC.impl_parse(t2, props)))
+        nls = [i for i, t in enumerate(toks) if t == '\n']
+        rng.shuffle(nls)
+        for i in nls[:15]:
+            w = rng.choice(['@@ %%', '$a $b', '!x', '%', 'a@b int', 'x=1 y=2'])
+            t2 = ''.join(toks[:i + 1] + ['  ', w, '\n'] + toks[i + 1:])
+            out.append(('symbol-line', t2, props, PC.impl_parse(t2, props)))
         bounds = list(range(len(toks) + 1))
         rng.shuffle(bounds)
         for i in bounds[:40]:
@@ -175,7 +189,7 @@ def main(tier, seed):
     return ctx.finish(
         rule='(a) grammar faults injected by the speller at the k-th opportunity: column without type, unknown setting, unknown '
              'index type, bad relation operator, bad action, malformed colour, a property line with the option off, words after a column definition on its line; (b) every structural bracket deleted, brackets '
-             'inserted at 40 random token boundaries; (c) 30 kinds of trailing garbage, unterminated last string; each on valid '
+             'inserted at 40 random token boundaries, words and lines of characters DBML has no use for (@ % $ ! = * ~ &) at 40 more; (c) 30 kinds of trailing garbage, unterminated last string; each on valid '
              'spelled documents (checked); (d) random token/character mutants of corpus and spelled documents and token soups '
              '(verdict correspondence). Distinct by text hash; every case differs from its valid source',
         explanation='Oracle: a document carrying a fault of a kind no valid spelling contains must not yield a database. '
